@@ -291,9 +291,8 @@ pub fn select<const N: usize>(prop: &str, act: &Act, tr: &Trans) -> (Vec<(Proble
                             if !tr.rec.pre.is_full {
                                 sel.push((Problem { kind: PKind::Trace, detail: "Err although is_full() was false".into() }, ""));
                             }
-                            if key_fine(&tr.rec.pre) != key_fine(&tr.rec.post) {
-                                sel.push((Problem { kind: PKind::ImageChanged, detail: "try_push returned Err but the memory image changed".into() }, ""));
-                            }
+                            // ("leave the buffer unchanged" is judged on the observable contents — the Contents
+                            // judgement above — not on the memory image, which an implementation is free to touch)
                         } else if let Some(Obs::OkV) = tr.rec.trace.first() {
                             if tr.rec.pre.is_full {
                                 sel.push((Problem { kind: PKind::Trace, detail: "Ok(()) although is_full() was true: the element was lost".into() }, ""));
